@@ -6,9 +6,11 @@
    proofs in Proofs/Device*.v.  `valid_op` = client commands are the nine targeted ones, dev_initial_connect happens once (HInit);
    `cfg_ok` = what the parser guarantees (login script exists: F14; blocks non-empty; formats %s/%%-only) + formatted send strings fit 64 KiB. *)
 
-(* OPEN *) (* C07_no_hang: `run` never returns Hang.  Hang is the model's own fuel (64*64 iterations of _process_action's loop per device and
-   pass, 8 nested blocks in one do-while round); the C loops have no such bound and terminate because every iteration finishes a statement of
-   a finite script over a finite plug list.  Not proved: a termination measure over foreach x plugs.  R-DEV would show a Hang as a mismatch. *)
+(* OPEN *) (* C07_no_hang for ALL configurations is FALSE of the model: see C07_no_hang_refuted (the fuel of _process_action's loop, 4096
+   iterations per device and pass, is a modelling artefact: the C loop has no bound and terminates because every iteration finishes one
+   statement of a finite script over a finite plug list; the witness needs 65 plugs under two nested foreachplug).  The measure that
+   bounds the number of iterations (potential of the exec stacks: remaining statements weighted by remaining plugs) is described in
+   DESIGN / the report; its mechanisation is open, so the theorems say `Ok or Hang`.  R-DEV shows a Hang as a mismatch. *)
 (* OPEN *) (* C07_others_usable is C05's; the telnet filter (device_tcp.c) and cbuf are C09's; device_tcp.c / device_pipe.c descriptor
    bookkeeping is abstracted (stub transports: the connect methods answer with a plan) and only exercised by the pmsim monitors. *)
 From Coq Require Import List NArith ZArith Bool Lia.
@@ -152,6 +154,25 @@ Proof.
     + eexists. split; [vm_compute; reflexivity|cbn [length]; unfold MAX_DEV_BUF; lia].
     + eexists. split; [vm_compute; reflexivity|cbn [length]; unfold MAX_DEV_BUF; lia].
 Qed.
+
+(* the fuel of the model CAN run out on a legal configuration (so `Hang` in the theorems above is not vacuous, and is an artefact of the
+   model, not a behaviour of the C): 65 plugs, login script foreachplug { foreachplug { setplugstate } }: 65 * 66 + 1 = 4291 statement rounds
+   in the pass that follows the connect.  With 62 plugs (3907 rounds) the same pass completes and the device is logged in. *)
+Definition ex_plugs (n : nat) : list plug := map (fun i => mkPlug [N.of_nat i] (Some [N.of_nat i])) (seq 1 n).
+Definition ex_nested (n : nat) : device :=
+  mk_device (bslit "d0") (ex_plugs n) [(PM_LOG_IN, [ForeachPlug [ForeachPlug [SetPlugState None 1 2 []]]])] 5000000 0.
+Theorem C07_no_hang_refuted :
+  cfg_ok ex_compress (ex_nested 65) /\
+  run ex_rmatch ex_compress false (mkH 0 [(ex_nested 65, peer0)] []) [HPlan 0 [ConnNow]; HNow 1000000; HPass] = Hang 2 /\
+  exists h outs, run ex_rmatch ex_compress false (mkH 0 [(ex_nested 62, peer0)] []) [HPlan 0 [ConnNow]; HNow 1000000; HPass] = Ok (h, outs) /\
+    map (fun dp => (dv_logged_in (fst dp), dv_acts (fst dp))) (h_devs h) = [(true, [])].
+Proof.
+  split; [|split; [vm_compute; reflexivity|vm_compute; eexists _, _; split; reflexivity]].
+  split; [eexists; reflexivity|]. intros i s H. cbn [dv_scripts ex_nested mk_device assoc_script] in H.
+  destruct (Z.eqb i PM_LOG_IN); [injection H as <-|discriminate H].
+  split; [discriminate|]. repeat (constructor; try discriminate; try exact Logic.I).
+Qed.
+Print Assumptions C07_no_hang_refuted.
 
 (* non-vacuity of C07_telnet_replies: a connected device reads "ok" while the telnet filter queues a 3-byte option reply; the login's expect
    matches and the next statement - a send - starts on a dev->to that is NOT empty (inv_to is false here): the pass returns Ok and the
